@@ -1,6 +1,6 @@
 (* Properties_C17.v — the theorems that decide property C17 on the model, each stated in full and closed by
    `exact <lemma>`; the lemmas live in the Proofs_*.v files.  Nothing else belongs in this file. *)
-From Theo Require Import Base VMModel VMSpec VMStatements Proofs_VM_mem Proofs_VM_dbg.
+From Theo Require Import Base VMModel VMSpec VMStatements Proofs_VM_mem Proofs_VM_dbg CompiledStatements Regex Tokens Errors Lexer Scan MacroExtract Grammar LR MacroApply Parser VMCheck VMCheckStatements GenModel Compile Gen_Lexer Gen_Consts CompileStatements Proofs_Compiled.
 Local Open Scope Z_scope.
 
 Theorem rel_reachable :
@@ -27,3 +27,11 @@ Theorem C17_halt :
     exec1 s = Ok (s, true) /\ (forall fuel, execute (S fuel) s = Ok s).
 Proof. exact C17_halt_proof. Qed.
 Print Assumptions C17_halt.
+
+Theorem C17_compiled :
+  forall files main c h fuel s,
+    compile files main = Ok c -> run_hist fuel h (init (cr_prog c)) = Ok s ->
+    reset s = Ok (init (cr_prog c)) /\
+    forall h', run_hist fuel (AReset :: h') s = run_hist fuel h' (init (cr_prog c)).
+Proof. exact C17_compiled_proof. Qed.
+Print Assumptions C17_compiled.
